@@ -31,6 +31,10 @@ def apply_patch(cfg, patch):
             cfg["game"]["seed"] = v
         elif k == "max_episode_length":
             cfg["game"]["max_episode_length"] = v
+        elif k == "early_attacker" and v:
+            for a in cfg.get("agents", []):
+                if a.get("type") == "red-database-corrupting-agent":
+                    a["agent_settings"].update({"start_step": 2, "frequency": 2, "variance": 0})
         elif k == "no_scripted" and v:
             # a deterministic instance: only the learning agent, with a constant reward
             keep = [a for a in cfg.get("agents", []) if a.get("type") == "proxy-agent"][:1]
@@ -111,10 +115,10 @@ def main():
     A = PrimaiteGymEnv(env_config=copy.deepcopy(cfgA) if isinstance(cfgA, dict) else cfgA)
     rng = random.Random(77)
     for ep in range(1, spec["measure_episode"]):
-        A.reset(seed=rng.randrange(1000))
+        A.reset(seed=spec["reset_seed"] if spec.get("earlier_seed") == "same" else rng.randrange(1000))
         if spec.get("dirty"):
             dirty_episode(A, rng, spec["steps"])
-    if other and other["when"] == "before-measured-reset":
+    if other and other["when"] in ("before-measured-reset", "closed-mid-episode"):
         B = make_b()
     obs, _ = A.reset(seed=spec["reset_seed"])
     if other and other["when"] == "interleaved":
@@ -132,7 +136,11 @@ def main():
             B.step(0 if quiet else brng.randrange(B.action_space.n))
             if t == spec["steps"] // 2:
                 B.reset(seed=None if quiet else 3)
-        a = arng.randrange(n)
+        if B is not None and other["when"] == "closed-mid-episode" and t == spec["steps"] // 2:
+            B.close()
+            B = None
+            gc.collect()
+        a = arng.randrange(n) if not spec.get("idle") else 0
         obs, rew, term, trunc, info = A.step(a)
         st = strip_volumes(world.norm_state(A.game.simulation.describe_state(), table))
         rec = {"t": t, "a": a, "obs": digest(world.norm_state(obs_plain(obs), table)), "rew": repr(float(rew)), "state": digest(st),
